@@ -19,7 +19,7 @@ LEVEL = "exploration"
 RULE = (
     "Four parts. (1) Exhaustive 1-D box, separately for the horizontal and the vertical axis: component "
     "size 1..96 x dwt_depth 0..4 x dwt_depth_ho 0..4 x slice count 1..100 x every level 0..depth (thorough: "
-    "size 1..160, slices 1..130); the component (Y/C1/C2) rotates with the case and the other component, the "
+    "size 1..200, slices 1..160); the component (Y/C1/C2) rotates with the case and the other component, the "
     "other axis and the other slice count are given different values so that a mix-up is visible. One "
     "evaluation = one (axis, size, depths, slice count, level): subband_width/height compared with the "
     "harness model (pad up to a multiple of 2^(depth) per axis, halve once per transform level, "
@@ -68,7 +68,7 @@ def EXHAUSTIVE(tier):
 
 
 def box_limits(tier):
-    return (160, 130) if tier == "thorough" else (96, 100)
+    return (200, 160) if tier == "thorough" else (96, 100)
 
 
 def bytes_limits(tier):
@@ -82,9 +82,9 @@ def shards(tier):
     out += [("bytes_box", k, 8) for k in range(8)]
     if tier == "thorough":
         # (kind, index, examples per shard)
-        out += [("flag", k, 20000) for k in range(16)]
-        out += [("drawn", k, 15000) for k in range(16)]
-        out += [("bytes_hyp", k, 15000) for k in range(16)]
+        out += [("flag", k, 60000) for k in range(16)]
+        out += [("drawn", k, 40000) for k in range(16)]
+        out += [("bytes_hyp", k, 40000) for k in range(16)]
     else:
         out += [("flag", k, 1200) for k in range(8)]
         out += [("drawn", k, 1500) for k in range(4)]
